@@ -52,7 +52,8 @@ class Rule(whitespace.Rule):
             return
         elif self.number_of_spaces != 0:
             iSpaces = self.extract_expected_number_of_spaces()
-            self.create_violation(oToi, iSpaces)
+            if iSpaces > 0:
+                self.create_violation(oToi, iSpaces)
 
     def extract_expected_number_of_spaces(self):
         if self.number_of_spaces_is_an_integer():
@@ -60,11 +61,11 @@ class Rule(whitespace.Rule):
         elif self.number_of_spaces_is_gte():
             return int(self.number_of_spaces[2:])
         elif self.number_of_spaces_is_gt():
-            return int(self.number_of_spaces[1:])
+            return int(self.number_of_spaces[1:]) + 1
         elif self.number_of_spaces_is_lte():
             return int(self.number_of_spaces[2:])
         elif self.number_of_spaces_is_lt():
-            return int(self.number_of_spaces[1:])
+            return int(self.number_of_spaces[1:]) - 1
         elif self.number_of_spaces_is_plus():
             return int(self.number_of_spaces[:-1])
 
